@@ -523,6 +523,8 @@ class SimNet:
         self.connect_policy = {}   # (host,port) -> "ok" | "refuse" | "blackhole"
         self.links = []
         self.extra_delay = None    # callable(direction, link) -> extra seconds
+        self.quantum = None        # seconds: server->client arrivals land on a global lattice (replies of several
+        #                            brokers reach the client at the same virtual instant, in one loop pass)
         self.ctx = contextvars.copy_context()   # network/broker callbacks never run in a client's context
 
     def call_at(self, when, cb, *args):
@@ -543,6 +545,10 @@ class SimNet:
         v = lo + (hi - lo) * self.rng.random()
         if self.extra_delay is not None:
             v += self.extra_delay(direction, link) or 0.0
+        if self.quantum and direction == "s2c":
+            import math
+            now = self.loop.time()
+            v = max(0.0, math.ceil((now + v) / self.quantum - 1e-9) * self.quantum - now)
         return v
 
     def choose_cuts(self, n):
